@@ -288,12 +288,20 @@ def hasMarks (s : UImage ι) : Bool :=
   | none => false
   | some b => match b.gadget.body with | none => false | some g => g.marks.any id
 
+/-- the marks of the gadget's H items in image order, as a 0/1 string (documented layout: bit `i % 8` of mark byte `i / 8`) -/
+def gadgetMarks (s : UImage ι) : String :=
+  match s.body with
+  | none => ""
+  | some b => match b.gadget.body with
+    | none => ""
+    | some g => String.ofList (g.marks.map (fun m => if m then '1' else '0'))
+
 /-- canonical API content = content of `get_result()`: without marked items it is the gadget read as a sketch with the
-union's `n`; with marked items only `n` is determined by the image alone (marker `M`) -/
+union's `n`; with marked items the image alone determines `n` and which H items are marked (marker `M gm=<marks>`) -/
 def uProject (sd : Serde ι) (s : UImage ι) : String :=
   match s.body with
   | none => s!"VU k={s.maxK} n=0 ns=0 items="
-  | some b => if hasMarks s then s!"VU n={b.n} M" else projectAs "VU" sd b.gadget.k b.n b.gadget.body
+  | some b => if hasMarks s then s!"VU n={b.n} M gm={gadgetMarks s}" else projectAs "VU" sd b.gadget.k b.n b.gadget.body
 
 def uLayout (sd : Serde ι) (s : UImage ι) : List (String × Nat) :=
   [("upre", 0)] ++ (match s.body with
